@@ -20,17 +20,37 @@ func vxHasSecure(m erpc.Message) bool {
 	return string(m.Meta().Peek(SECURE_META_KEY)) == "true"
 }
 
+// vxAudit is an unrelated plugin registered after the secure plugin; it
+// implements the same body hooks and always agrees.
+type vxAudit struct{ seen int }
+
+func (a *vxAudit) Name() string                                      { return "vxaudit" }
+func (a *vxAudit) PostReadCallBody(erpc.ReadCtx) *erpc.Status         { a.seen++; return nil }
+func (a *vxAudit) PostReadPushBody(erpc.ReadCtx) *erpc.Status         { a.seen++; return nil }
+func (a *vxAudit) PostReadReplyBody(erpc.ReadCtx) *erpc.Status        { a.seen++; return nil }
+func (a *vxAudit) PreWriteCall(erpc.WriteCtx) *erpc.Status            { return nil }
+func (a *vxAudit) PreWriteReply(erpc.WriteCtx) *erpc.Status           { return nil }
+
+func vxPlugins(code int32, key string, audit bool) []erpc.Plugin {
+	ps := []erpc.Plugin{NewPlugin(code, key)}
+	if audit {
+		ps = append(ps, &vxAudit{})
+	}
+	return ps
+}
+
 // VX_C17_Call: client and server peers with the secure plugin; the harness
 // carries the frames between two scripted connections and inspects them.
-// args: secureMark(0 absent, 1 true), accept(0 absent, 1 "true", 2 "false"), sameKey(0/1), nBody
+// args: secureMark(0 absent, 1 true), accept(0 absent, 1 "true", 2 "false"), sameKey(0/1), nBody[, otherPluginAfter(0/1)]
 func VX_C17_Call(args []int) {
 	mark, accept, sameKey, nBody := args[0], args[1], args[2], args[3]
 	skey := vxKeyA
 	if sameKey == 0 {
 		skey = vxKeyB
 	}
-	cli := erpc.NewPeer(erpc.PeerConfig{DefaultBodyCodec: "protobuf"}, NewPlugin(10001, vxKeyA))
-	srv := erpc.NewPeer(erpc.PeerConfig{DefaultBodyCodec: "protobuf"}, NewPlugin(10002, skey))
+	audit := len(args) > 4 && args[4] == 1
+	cli := erpc.NewPeer(erpc.PeerConfig{DefaultBodyCodec: "protobuf"}, vxPlugins(10001, vxKeyA, audit)...)
+	srv := erpc.NewPeer(erpc.PeerConfig{DefaultBodyCodec: "protobuf"}, vxPlugins(10002, skey, audit)...)
 	arg := vxBytes("arg", nBody)
 	result := vxBytes("res", nBody)
 	argCopy := append([]byte{}, arg...)
@@ -110,7 +130,12 @@ func VX_C17_Call(args []int) {
 	default:
 	}
 	vxAssert(done, "[C02] call completed")
-	if done && !(mark == 1 && sameKey == 0) {
+	if done && mark == 0 && accept == 1 && sameKey == 0 {
+		// the reply was encrypted with a key the caller does not have
+		vxAssert(!cmd.StatusOK(), "different key on the caller's side: a non-OK status is reported for the encrypted reply")
+		vxAssert(len(resCopy) == 0 || !bytes.Equal(got, resCopy), "different key on the caller's side: the result is not delivered")
+		vxCover("c17.wrong-key-reply")
+	} else if done && !(mark == 1 && sameKey == 0) {
 		vxAssert(cmd.StatusOK(), "caller sees OK")
 		vxAssert(bytes.Equal(got, resCopy), "caller receives the original result")
 	}
@@ -118,15 +143,16 @@ func VX_C17_Call(args []int) {
 }
 
 // VX_C17_Push: a secure push delivers the original argument; with a different
-// key the handler is not invoked. args: secureMark, sameKey, nBody
+// key the handler is not invoked. args: secureMark, sameKey, nBody[, otherPluginAfter(0/1)]
 func VX_C17_Push(args []int) {
 	mark, sameKey, nBody := args[0], args[1], args[2]
 	skey := vxKeyA
 	if sameKey == 0 {
 		skey = vxKeyB
 	}
-	cli := erpc.NewPeer(erpc.PeerConfig{DefaultBodyCodec: "protobuf"}, NewPlugin(10001, vxKeyA))
-	srv := erpc.NewPeer(erpc.PeerConfig{DefaultBodyCodec: "protobuf"}, NewPlugin(10002, skey))
+	audit := len(args) > 3 && args[3] == 1
+	cli := erpc.NewPeer(erpc.PeerConfig{DefaultBodyCodec: "protobuf"}, vxPlugins(10001, vxKeyA, audit)...)
+	srv := erpc.NewPeer(erpc.PeerConfig{DefaultBodyCodec: "protobuf"}, vxPlugins(10002, skey, audit)...)
 	arg := vxBytes("arg", nBody)
 	argCopy := append([]byte{}, arg...)
 	handled := 0
